@@ -241,6 +241,12 @@ impl Database {
 
         let memory_budget = Arc::new(MemoryBudget::auto_detect());
         let recovery_available = memory_budget.available(Pool::Recovery);
+        #[cfg(kahflane_turdb_verif)]
+        let recovery_available = if crate::verif::force_degraded() {
+            0
+        } else {
+            recovery_available
+        };
 
         let estimate = Self::estimate_recovery_cost(&wal_dir)?;
 
